@@ -110,6 +110,9 @@ type dKnobs struct {
 	EarlyPct     int // probability that a node is still registering / initializing
 	BigPodPct    int // probability that a workload pod keeps the scheduler world's (often large) requests
 	FillerPct    int // probability that a node carries a pod taking ~65% of its cpu
+	MidWaitPct   int // probability that a third party changes something while a disrupt step waits to validate
+	// MidWaitBlockers: mid-wait changes are mostly the ones that protect the node they land on
+	MidWaitBlockers bool
 }
 
 func defaultDKnobs() dKnobs {
@@ -117,7 +120,7 @@ func defaultDKnobs() dKnobs {
 	k.MaxNodes, k.MaxPools, k.MaxPending, k.MaxTypes = 7, 2, 2, 7
 	k.InterPod, k.NoPrefs, k.NoLimits, k.NoSoftTaints, k.FriendlyPools, k.EasyPods, k.MoreInitialized = 0, true, true, true, true, true, true
 	k.Overrides = false
-	return dKnobs{Sched: k, MaxSteps: 6, BlockerPct: 10, BudgetPct: 30, StaticPct: 12, DriftPct: 25, NeverPct: 8, WhenEmptyPct: 20, TGPPct: 35, EmptyNodePct: 25, BigCatalog: 8, Mutations: true, MultiRound: true, MinNodes: 2, EarlyPct: 10, BigPodPct: 15, FillerPct: 30}
+	return dKnobs{Sched: k, MaxSteps: 6, BlockerPct: 10, BudgetPct: 30, StaticPct: 12, DriftPct: 25, NeverPct: 8, WhenEmptyPct: 20, TGPPct: 35, EmptyNodePct: 25, BigCatalog: 8, Mutations: true, MultiRound: true, MinNodes: 2, EarlyPct: 10, BigPodPct: 15, FillerPct: 30, MidWaitPct: 30}
 }
 
 // dpct is a calibrated Bernoulli draw (rapid's integer generators are heavily biased towards small values: IntRange(0,99)<10
@@ -421,8 +424,15 @@ func drawDisrupt(t *rapid.T, k dKnobs) *dScenario {
 			m := drawMut(t, l, w)
 			st.Mut = &m
 		case "disrupt":
-			if k.Mutations && dpct(t, 30, l+"_midWait") {
+			if k.Mutations && dpct(t, k.MidWaitPct, l+"_midWait") {
 				m := drawMut(t, l, w)
+				if k.MidWaitBlockers {
+					// a change that protects the node it lands on
+					m.Kind = rapid.SampledFrom([]string{"podAnnotate", "nodeAnnotate", "pdbBlock", "nominate", "podAnnotate", "nodeAnnotate", "addPod", "claimDelete"}).Draw(t, l+"_midWaitKind")
+					if m.Kind == "podAnnotate" {
+						m.Arg = "true"
+					}
+				}
 				st.Mut = &m
 			}
 		}
